@@ -48,12 +48,14 @@ def stepLine (st : DState) (line : String) : DState × String :=
     | none => (st, "bad-op")
   | ["mon.c12.genesis-nul"] => (st, "pass")       -- identifiers with the x/nft key delimiter never get into the state: C12
   | ["mon.c05.genesis-tombstone-with-residue"] => (st, "pass")  -- a tombstone (no id, sequence past the initial one) is one whatever else the entry carries
+  | ["mon.c04.other-key-types"] => (st, "pass")  -- whatever key type proves: an accepted proof is consumed (seq_advances, update_replay_rejected)
   | ["mon.c05.genesis-seq-wrap"] => (st, "pass")  -- a deactivated DID is never creatable again: C05
   | ["mon.c05.seq-exhaustion", _] => (st, "pass")  -- the same at the end of the sequence space reached by updates
   | ["mon.c17.endblock-not-halted"] => (st, "pass")  -- C17: crafted transactions cannot make the end-blocker panic
   | ["mon.c18.long-address", _] => (st, "pass")  -- string form round-trips for every admitted address length (C18)
   | ["mon.c13.offset-walk", _] => (st, "pass")  -- a walk that changes its page size still delivers every item (F25: the SDK's offset + limit wraps)
   | ["mon.c07.send-disabled", _] => (st, "pass")  -- the bank's send switch guards messages, not the sink: what arrives is burned
+  | ["mon.c07.whole-supply"] => (st, "pass")  -- burn_endblock_spec has no exception for "all that is left of a denomination"
   | ["mon.c07.invariant-check-period"] => (st, "pass")  -- invariant checks (genesis, inv-check-period) never halt on coins waiting to be burned
   | ["mon.c07.module-account-recipient"] => (st, "pass")  -- the transit module account cannot be squatted: the end-blocker never halts
   | ["mon.c07.endblock-movers"] => (st, "pass")   -- whatever reaches the burn address while the block ends is burned in that block
@@ -64,6 +66,7 @@ def stepLine (st : DState) (line : String) : DState × String :=
   | "mon.c14.pair.utf8" :: _ => (st, "pass")
   | "mon.c14.pair.admissible" :: _ => (st, "pass")
   | "mon.c03.utf8" :: _ => (st, "pass")
+  | ["mon.c11.genesis-with-nonexistent-entry"] => (st, "pass")   -- initGenesis_abs: every entry is written under its own key
   | ["mon.c11.genesis-key-spelling", _] => (st, "pass")   -- nor under a spelling variant of the identifier its document describes
   | "mon.c11.genesis-foreign-document" :: _ => (st, "pass")   -- the registry never holds a document about another DID   -- a proof made over other content is rejected: what C03 demands   -- two different messages never share sign bytes: what C14 demands
   | ["reset"] => ({ st with aol := {}, did := {}, pnft := {}, tx := {} }, "-")
@@ -80,7 +83,7 @@ def stepLine (st : DState) (line : String) : DState × String :=
       | none => (st, "bad-op")
     else if tok = "ks.load" then (st, (ksStep toks).getD "bad-op")
     else if tok = "mon.c17" || tok = "mon.c17.f14" || tok = "mon.c17.concurrent-validation" || tok = "mon.c17.did-handlers-total" || tok.startsWith "mon.c20." ||
-        tok = "mon.c09.block" || tok = "mon.c09.parallelism" || tok = "mon.c09.read-history" || tok = "mon.c09.node-config" || tok = "mon.c09.genesis-spellings" || tok = "mon.c09.genesis-order" || tok = "mon.c10.block" || tok = "mon.c10.restart-after-handler" || tok = "mon.c10.stale-upgrade-info" || tok = "mon.c10.rolled-back-handler-effects" || tok = "mon.c10.restart-inside-upgrade-block" || tok = "mon.c19.start-at-upgrade-height" || tok = "mon.c10.restart-after-param-change" || tok = "mon.c19.upgrade" || tok = "mon.c19.database-of-the-upgrade-path" || tok = "mon.c19.genesis-without-upgrade-section" then
+        tok = "mon.c09.block" || tok = "mon.c09.parallelism" || tok = "mon.c09.read-history" || tok = "mon.c09.node-config" || tok = "mon.c09.upgrade-replicas" || tok = "mon.c09.genesis-spellings" || tok = "mon.c09.genesis-order" || tok = "mon.c10.block" || tok = "mon.c10.restart-after-handler" || tok = "mon.c10.stale-upgrade-info" || tok = "mon.c10.restart-then-verify-invariant" || tok = "mon.c10.rolled-back-handler-effects" || tok = "mon.c10.restart-inside-upgrade-block" || tok = "mon.c19.start-at-upgrade-height" || tok = "mon.c10.restart-after-param-change" || tok = "mon.c19.upgrade" || tok = "mon.c19.database-of-the-upgrade-path" || tok = "mon.c19.genesis-without-upgrade-section" then
       -- runtime monitors: the model's verdict is what the property demands (Properties/C09, C10, C19, C20)
       (st, "pass")
     else if tok.startsWith "bank." || tok = "endblock" || tok = "mon.c07.inv" then
